@@ -96,7 +96,9 @@ def Justified (H : List Ev) : Ev → Prop
           -- what the code allows in addition (known finding D5, after the fix: commit that makes a
           -- prepared node refuse conflicting bare proposals): a stand-alone PREPREPARE of the
           -- node's current view, provided the node holds no prepared certificate for another hash
-          ∨ (∀ v0 h0, com n v0 h0 ∈ H → h0 = h))
+          -- (`lockConflict` consults only the node's *latest* prepared view; the node's current
+          -- view is never below a view it prepared in, and it accepts once per view)
+          ∨ (∀ v0 h0, com n v0 h0 ∈ H → v0 < v ∧ ((∀ v1 h1, com n v1 h1 ∈ H → v1 ≤ v0) → h0 = h)))
   | com n v h  => acc n v h ∈ H ∧ validCert S H v h ∧ (∀ v' pf, vote n v' pf ∈ H → v' ≤ v)
       ∧ (∀ v' h', acc n v' h' ∈ H → v' ≤ v)      -- a node becomes prepared only in its current view
   | lcom _ v h => commitQuorum S H v h
@@ -216,6 +218,34 @@ theorem commitQuorum_prepared : ∀ (k : Nat) {H : List Ev}, H.length ≤ k → 
       · exact absurd ⟨m, hm, hc, hh, a⟩ hl2
 
 
+/-- among the COMMITs-on-prepared of a node in a history there is one of the highest view -/
+theorem max_com (H : List Ev) (n : Nat) (hex : ∃ v h, com n v h ∈ H) :
+    ∃ v h, com n v h ∈ H ∧ ∀ v1 h1, com n v1 h1 ∈ H → v1 ≤ v := by
+  induction H with
+  | nil => obtain ⟨_, _, h⟩ := hex; cases h
+  | cons e H ih =>
+    by_cases hrest : ∃ v h, com n v h ∈ H
+    · obtain ⟨v, h, hin, hmax⟩ := ih hrest
+      by_cases hnew : ∃ v2 h2, e = com n v2 h2 ∧ v < v2
+      · obtain ⟨v2, h2, rfl, hlt⟩ := hnew
+        refine ⟨v2, h2, List.mem_cons_self, fun v1 h1 h => ?_⟩
+        rcases List.mem_cons.mp h with e | h
+        · injection e with _ e2 _; omega
+        · have := hmax v1 h1 h; omega
+      · refine ⟨v, h, List.mem_cons_of_mem _ hin, fun v1 h1 h => ?_⟩
+        rcases List.mem_cons.mp h with e' | h
+        · by_cases hle : v1 ≤ v
+          · exact hle
+          · exact absurd ⟨v1, h1, e'.symm, by omega⟩ hnew
+        · exact hmax v1 h1 h
+    · obtain ⟨v, h, hin⟩ := hex
+      rcases List.mem_cons.mp hin with rfl | hin
+      · refine ⟨v, h, List.mem_cons_self, fun v1 h1 h' => ?_⟩
+        rcases List.mem_cons.mp h' with e | h'
+        · injection e with _ e2 _; omega
+        · exact absurd ⟨v1, h1, h'⟩ hrest
+      · exact absurd ⟨v, h, hin⟩ hrest
+
 /-- **the lock**: once a commit quorum for (v,h) is visible, every certificate of a later view is for h -/
 theorem locked {H : List Ev} (hv : Valid S H) {v h : Nat} (hcq : commitQuorum S H v h) :
     ∀ (d : Nat) (v' h' : Nat), v' = v + 1 + d → validCert S H v' h' → h' = h := by
@@ -260,7 +290,20 @@ theorem locked {H : List Ev} (hv : Valid S H) {v h : Nat} (hcq : commitQuorum S 
       -- in v after accepting a proposal of the later view v'), so the proposal is for h
       rcases c0 (com m1.id v h) hcom1 with e | hin | ⟨H1, _, j1, m1in, _⟩
       · cases e
-      · exact (hbare v h hin).symm
+      · -- the member's latest COMMIT-on-prepared before this acceptance is for a view in [v, v')
+        obtain ⟨vm, hm, hmin, hmax⟩ := max_com H0 m1.id ⟨v, h, hin⟩
+        obtain ⟨hlt, hhash⟩ := hbare vm hm hmin
+        have hh' : hm = h' := hhash hmax
+        have hge : v ≤ vm := hmax v h hin
+        have hcm : com m1.id vm hm ∈ H := s0 _ hmin
+        by_cases heq : vm = v
+        · subst heq
+          obtain ⟨Ha, _, ja, sa, _, _⟩ := justified_of_mem S hv hcm
+          obtain ⟨Hb, _, jb, sb, _, _⟩ := justified_of_mem S hv hcom1
+          have := acc_unique S hv (sa _ ja.1) (sb _ jb.1)
+          omega
+        · have := ih (vm - v - 1) (by omega) vm hm (by omega) (com_cert S hv hcm)
+          omega
       · have := j1.2.2.2 v' h' m1in; omega
 
 /-- **Agreement (C01)**: in every history built by the local rules, for every committee and every
